@@ -795,7 +795,7 @@ fn runtime_ids(l: &Line) -> Result<(), String> {
             }
             Tok::AsBc(b, _, _) => {
                 if !live_b.contains(b) {
-                    return Err(format!("bucket:{}@{}", b, i));
+                    return Err(format!("bucket-assert:{}@{}", b, i));
                 }
             }
             _ => {}
@@ -1001,6 +1001,8 @@ impl Runner for R {
                 let checked = match kind.as_str() {
                     "address-target" => l.rules[4],
                     "blob" => l.rules[1],
+                    // the bucket of ASSERT_BUCKET_CONTENTS is only looked up under validate_resource_assertions
+                    "bucket-assert" => l.rules[5],
                     _ => true,
                 };
                 if checked {
@@ -1458,9 +1460,6 @@ impl Runner for ER {
         let instructions = build_eops(&ops, *account, *nf);
         let manifest = TransactionManifestV2 { instructions, blobs: Default::default(), children: Default::default(), object_names: Default::default() };
         let verdict = manifest.validate(ValidationRuleset::all());
-        if let Err(e) = &verdict {
-            return Answer::ok(format!("rejected {}", show_err(e, &Rec::default()).split(" @").next().unwrap().replace("err ", "")));
-        }
         // execute WITHOUT committing: every case starts from the same ledger state
         let nonce = sim.next_transaction_nonce();
         let proofs: BTreeSet<NonFungibleGlobalId> = [NonFungibleGlobalId::from_public_key(&*pk)].into_iter().collect();
@@ -1474,6 +1473,11 @@ impl Runner for ER {
             TransactionResult::Reject(r) => format!("reject:{:?}", r.reason).chars().take(60).collect(),
             TransactionResult::Abort(_) => "abort".to_string(),
         };
+        if let Err(e) = &verdict {
+            // informational: what the engine does with a statically rejected manifest (shows that the
+            // receipt classification below does see id errors)
+            return Answer::ok(format!("rejected {} rt={}", show_err(e, &Rec::default()).split(" @").next().unwrap().replace("err ", ""), class.split(':').next().unwrap()));
+        }
         let ans = format!("accepted {}", class.split(':').next().unwrap());
         if class.starts_with("IDERR") {
             return Answer::fail(ans, format!("engine-accepted-unknown-id:{}", class), format!("statically accepted manifest failed at run time with {} ({})", class, line));
